@@ -24,6 +24,21 @@ for shname in ("run.sh", "run_demo.sh"):
     if os.path.exists(os.path.join(src, shname)):
         demos = []
         demo_cmds.append((shname, f"sh {src}/{shname} > /tmp/seed_demo.out 2>&1; echo SEEDRC=$?; tail -25 /tmp/seed_demo.out"))
+incrate = []
+for d in list(demos):
+    txt = open(d).read()
+    if ("use crate::" in txt or "use super::super::" in txt) and "use cglue::" not in txt and "cglue::" not in txt.replace("use crate::", ""):
+        # an in-crate test module (cglue/src/tests/<name>.rs + a `pub mod` line)
+        demos.remove(d)
+        stem = os.path.splitext(os.path.basename(d))[0] + "_seedmod"
+        shutil.copy(d, os.path.join(wt, "cglue", "src", "tests", stem + ".rs"))
+        incrate.append(stem)
+        demo_cmds.append((stem, f"cargo test -p cglue --offline {feat} --lib {stem} 2>&1 | tail -25"))
+def install_incrate():
+    for stem in incrate:
+        with open(os.path.join(wt, "cglue", "src", "tests", "mod.rs"), "a") as f:
+            f.write(f"\npub mod {stem};\n")
+install_incrate()
 for d in demos:
     stem = os.path.splitext(os.path.basename(d))[0]
     os.makedirs(os.path.join(wt, "cglue", "tests"), exist_ok=True)
@@ -36,6 +51,7 @@ for stem, c in demo_cmds:
     meta["ran"][f"demo {stem} with change"] = "FAILS" if bad else "passes (!): " + out[-300:]
     fails_with &= bad
 sh("git checkout -- .")
+install_incrate()
 passes_without = True
 for stem, c in demo_cmds:
     rc, out = sh(c)
